@@ -10,6 +10,7 @@ import (
 	"errors"
 	"fmt"
 	"os"
+	"os/exec"
 	"path/filepath"
 	"runtime"
 	"strings"
@@ -123,6 +124,34 @@ func TestVerifState(t *testing.T) {
 					bad = append(bad, fmt.Sprintf("all=%s lo=%s: %v", tc.all, tc.lo, err))
 				} else if got != (tc.lo == "1") {
 					bad = append(bad, fmt.Sprintf("conf/all/forwarding=%s conf/lo/forwarding=%s: IPv6Forwarding(lo) = %v", tc.all, tc.lo, got))
+				}
+			}
+			// an interface index is not an identity: the interface a State was asked about is deleted and another one
+			// is created under the same index -- a write for the old NAME fails with "not exist" and touches nobody else
+			ip := func(arg ...string) error {
+				bin, err := exec.LookPath("ip")
+				if err != nil {
+					return err
+				}
+				_, err = exec.Command(bin, arg...).CombinedOutput()
+				return err
+			}
+			if ip("link", "add", "verifsa", "index", "77", "type", "veth", "peer", "name", "verifsap") == nil {
+				st := NewState()
+				_, _ = st.IPv6Autoconf("verifsa")
+				_, _ = st.IPv6Forwarding("verifsa")
+				if ip("link", "del", "verifsa") == nil && ip("link", "add", "verifsb", "index", "77", "type", "veth", "peer", "name", "verifsbp") == nil {
+					file := "/proc/sys/net/ipv6/conf/verifsb/autoconf"
+					if os.WriteFile(file, []byte("0"), 0o644) == nil {
+						err := st.SetIPv6Autoconf("verifsa", true)
+						after, _ := os.ReadFile(file)
+						if !errors.Is(err, os.ErrNotExist) {
+							bad = append(bad, fmt.Sprintf("SetIPv6Autoconf for a deleted interface (its index now belongs to another one): want not-exist, got %v", err))
+						}
+						if string(after) != "0\n" {
+							bad = append(bad, fmt.Sprintf("SetIPv6Autoconf for a deleted interface changed the sysctl of the interface that inherited its index: %q", after))
+						}
+					}
 				}
 			}
 			res <- strings.Join(bad, "; ")
